@@ -373,11 +373,99 @@ def r4_latest_is_ffill(repo=None):
     return r
 
 
+def r7_cache_keys_complete(repo=None):
+    """'both a newly created reader and a reader created earlier report it': a reader object that memoises something per call must
+    key the memo by everything the memoised value depends on, otherwise a later call with another argument is answered from the
+    entry of an earlier one (get_digital_metadata(ch, top_level_dir=B) returned the reader made for directory A: writes into B were
+    never reported).  For every method of the reader classes that both returns `self.<memo>[K]` and stores `self.<memo>[K] = V`:
+    the parameters in the backward slice of V (flow-insensitive def-use over the method's locals, loop targets depending on their
+    iterables) must all occur in K."""
+    r = Rule("C20.R7", "a memoised answer is keyed by every argument it depends on")
+    n_sites = 0
+    for mod_name, classes in (("digital_rf_hdf5", ("DigitalRFReader", "_top_level_dir_properties")), ("digital_metadata", ("DigitalMetadataReader",))):
+        m = pyfront.mod(mod_name, repo)
+        for cls in classes:
+            for name, fn in m.methods(cls).items():
+                q = "%s.%s" % (cls, name)
+                params = [a.arg for a in fn.args.args + fn.args.kwonlyargs if a.arg != "self"]
+                stores = [n for n in pyfront.walk_no_nested(fn) if isinstance(n, ast.Assign) and len(n.targets) == 1
+                          and isinstance(n.targets[0], ast.Subscript) and (pyfront.dotted(n.targets[0].value) or "").startswith("self.")]
+                for st in stores:
+                    memo = pyfront.dotted(st.targets[0].value)
+                    hits = [x for x in pyfront.walk_no_nested(fn) if isinstance(x, ast.Return) and isinstance(x.value, ast.Subscript)
+                            and pyfront.dotted(x.value.value) == memo]
+                    if not hits:
+                        continue
+                    n_sites += 1
+                    # local def-use closure
+                    deps = {}
+                    for a in pyfront.walk_no_nested(fn):
+                        if isinstance(a, ast.Assign):
+                            used = {x.id for x in ast.walk(a.value) if isinstance(x, ast.Name)}
+                            for t in a.targets:
+                                for x in ast.walk(t):
+                                    if isinstance(x, ast.Name) and isinstance(x.ctx, ast.Store):
+                                        deps.setdefault(x.id, set()).update(used)
+                        elif isinstance(a, (ast.For, ast.comprehension)):
+                            used = {x.id for x in ast.walk(a.iter) if isinstance(x, ast.Name)}
+                            for x in ast.walk(a.target):
+                                if isinstance(x, ast.Name):
+                                    deps.setdefault(x.id, set()).update(used)
+                        elif isinstance(a, ast.If):
+                            # control dependence: names assigned under a test depend on the names tested
+                            used = {x.id for x in ast.walk(a.test) if isinstance(x, ast.Name)}
+                            for b in ast.walk(a):
+                                if isinstance(b, ast.Assign):
+                                    for t in b.targets:
+                                        for x in ast.walk(t):
+                                            if isinstance(x, ast.Name) and isinstance(x.ctx, ast.Store):
+                                                deps.setdefault(x.id, set()).update(used)
+                    work = [x.id for x in ast.walk(st.value) if isinstance(x, ast.Name)]
+                    seen = set()
+                    while work:
+                        v = work.pop()
+                        if v in seen:
+                            continue
+                        seen.add(v)
+                        work.extend(deps.get(v, ()))
+                    need = [p_ for p_ in params if p_ in seen]
+                    keyexpr = st.targets[0].slice
+                    knames = set()
+                    kwork = [x.id for x in ast.walk(keyexpr) if isinstance(x, ast.Name)]
+                    while kwork:
+                        v = kwork.pop()
+                        if v in knames:
+                            continue
+                        knames.add(v)
+                        # a key held in a local: what it was built from
+                        for a in pyfront.walk_no_nested(fn):
+                            if isinstance(a, ast.Assign) and any(isinstance(t, ast.Name) and t.id == v for t in a.targets):
+                                kwork.extend(x.id for x in ast.walk(a.value) if isinstance(x, ast.Name))
+                    missing = [p_ for p_ in need if p_ not in knames]
+                    site = "%s:%s %s `%s[%s]`" % (m.rel, st.lineno, q, memo, norm(ast.unparse(keyexpr)))
+                    same_key = all(norm(ast.unparse(h.value.slice)) == norm(ast.unparse(keyexpr)) for h in hits)
+                    if missing:
+                        r.violation(m.rel, q, "%s[%s] = %s" % (memo, norm(ast.unparse(keyexpr)), norm(ast.unparse(st.value))[:40]),
+                                    "the memoised value depends on the argument(s) %s, which are not part of the key: a later call with a "
+                                    "different value is answered with the object made for an earlier one (a reader for another top-level "
+                                    "directory never reports what is written into this one)" % ", ".join("`%s`" % x for x in missing),
+                                    line=st.lineno)
+                    elif not same_key:
+                        r.violation(m.rel, q, "%s looked up with `%s`, stored with `%s`" % (memo, norm(ast.unparse(hits[0].value.slice)),
+                                    norm(ast.unparse(keyexpr))), "the memo is read and written with different keys", line=st.lineno)
+                    else:
+                        r.ok(site, "key covers every argument the value depends on (%s)" % (", ".join(need) or "none"))
+    if n_sites < 1:
+        raise AnalysisError("no memoising reader method found (get_digital_metadata confirmed on the reference tree)")
+    r.guard(1)
+    return r
+
+
 def rules(repo=None):
     from . import c12
     return [lambda: r1_read_roles(repo), lambda: r2_write_closed_on_return(repo), lambda: r3_stateless_reader(repo),
             lambda: r4_latest_is_ffill(repo), lambda: c12.r2_range_filter(repo, rid="C20.R5"),
-            lambda: c12.r3_numeric_key_order(repo, rid="C20.R6")]
+            lambda: c12.r3_numeric_key_order(repo, rid="C20.R6"), lambda: r7_cache_keys_complete(repo)]
 
 
 EXPLANATION = (
